@@ -44,13 +44,13 @@ SPEC = dict(
          "scores that differ by a few parts in 10^10 must still be listed higher first); in half of the histories an entry is edited in place on every copy and LoadEmbeddings is called on "
          "a third copy where no embedding files exist, after which that copy must answer exactly like the copy on which the feature was never touched (the second time through a caching wrapper whose cache was switched off and must stay off). "
          "A third of the histories rebuild the index explicitly after growing the list; a third swap in a copy of the same entries (another backing array, same length) after the lazily built state is in place, with and without an explicit rebuild.",
-    floors=T({"history-explicit-index-builds": 150, "history-same-length-replacements": 60, "history-feature-tried-through-a-wrapper-with-the-cache-off": 100, "history-databases-with-copies-whose-rows-differ-in-the-last-bit": 50, "history-pairs-feature-tried-without-files": 600, "big-table-searches": 100, "history-reloads-of-embedding-files": 60, "history-pairs-literal": 200, "history-pairs-after-growth": 150, "history-pairs-raised": 300, "evaluations": 75000, "distinct_nontrivial": 1000,
+    floors=T({"active-repeated-answers-checked": 5000, "history-explicit-index-builds": 150, "history-same-length-replacements": 60, "history-feature-tried-through-a-wrapper-with-the-cache-off": 100, "history-databases-with-copies-whose-rows-differ-in-the-last-bit": 50, "history-pairs-feature-tried-without-files": 600, "big-table-searches": 100, "history-reloads-of-embedding-files": 60, "history-pairs-literal": 200, "history-pairs-after-growth": 150, "history-pairs-raised": 300, "evaluations": 75000, "distinct_nontrivial": 1000,
               "cos-random": 10000, "cos-self": 3000, "cos-zero": 4000, "cos-mismatch": 5000, "cos-empty": 1500, "cos-extreme": 4000,
               "files-truncation": 1600, "files-huge-count": 40, "files-wrong-dim": 90, "files-wordlen": 30, "files-zero": 7, "files-stream": 11,
               "files-random": 115, "files-inflated": 8, "files-valid": 15, "files-valid-loaded": 20,
               "inert-pairs": 12000, "inert-nonempty": 6000, "inert-zero-cmd-vectors": 3000, "inert-disjoint-vocabulary": 3000,
               "inert-below-floor": 3000, "active-pairs": 3500, "active-raised": 2000, "active-reordered": 500, "active-nonfinite-raised": 500},
-             {"history-explicit-index-builds": 4000, "history-same-length-replacements": 1800, "history-feature-tried-through-a-wrapper-with-the-cache-off": 3000, "history-databases-with-copies-whose-rows-differ-in-the-last-bit": 1500, "history-pairs-feature-tried-without-files": 18000, "big-table-searches": 500, "history-reloads-of-embedding-files": 2000, "evaluations": 750000, "distinct_nontrivial": 10000,
+             {"active-repeated-answers-checked": 100000, "history-explicit-index-builds": 4000, "history-same-length-replacements": 1800, "history-feature-tried-through-a-wrapper-with-the-cache-off": 3000, "history-databases-with-copies-whose-rows-differ-in-the-last-bit": 1500, "history-pairs-feature-tried-without-files": 18000, "big-table-searches": 500, "history-reloads-of-embedding-files": 2000, "evaluations": 750000, "distinct_nontrivial": 10000,
               "cos-random": 100000, "cos-self": 30000, "cos-zero": 40000, "cos-mismatch": 50000, "cos-empty": 15000, "cos-extreme": 40000,
               "files-truncation": 12000, "files-huge-count": 200, "files-wrong-dim": 90, "files-wordlen": 30, "files-zero": 7, "files-stream": 11,
               "files-random": 1400, "files-inflated": 8, "files-valid": 15, "files-valid-loaded": 20,
